@@ -241,6 +241,21 @@ fn run_one(d: &Diag, numbering: u8, keys: &[u16], stride: usize) -> Result<(usiz
             wc.dim_returned, wc.dim_space
         ));
     }
+    // a second call on the diagram as the first call left it (made bipartite): valid,
+    // independent and complete again, same number of webs
+    {
+        let webs2 = guarded(&format!("detection_webs, second call (numbering {numbering})"), || detection_webs(&mut g))?;
+        if *g.inputs() != ins || *g.outputs() != outs {
+            return Err(format!("numbering {numbering}: inputs/outputs were not restored by the second call"));
+        }
+        let wc2 = validate(&g, &webs2).map_err(|e| format!("numbering {numbering}, second call: {e}"))?;
+        if wc2.dim_returned != wc2.dim_space || wc2.dim_returned != wc.dim_returned {
+            return Err(format!(
+                "numbering {numbering}: a second call returns {} webs (space dimension {}), the first returned {}",
+                wc2.dim_returned, wc2.dim_space, wc.dim_returned
+            ));
+        }
+    }
     Ok((wc.dim_returned, g.num_vertices()))
 }
 
